@@ -1,8 +1,11 @@
 package main
 
 import (
+	"bytes"
+	"encoding/json"
 	"fmt"
 	"go/ast"
+	"go/printer"
 	"go/types"
 	"sort"
 	"strings"
@@ -46,6 +49,44 @@ func dumpTerm(w *World, spec string) {
 		}
 		return
 	}
+	if spec == "renamefuncs" {
+		// experiment: every unexported function and method of the variant packages renamed (suffix Rn)
+		ov := map[string]string{}
+		for _, p := range modulePkgs(w) {
+			if !strings.Contains(p.PkgPath, "/proc/mvp") {
+				continue
+			}
+			for _, f := range p.Syntax {
+				changed := false
+				ast.Inspect(f, func(n ast.Node) bool {
+					id, ok := n.(*ast.Ident)
+					if !ok {
+						return true
+					}
+					obj := p.TypesInfo.Defs[id]
+					if obj == nil {
+						obj = p.TypesInfo.Uses[id]
+					}
+					fn, ok := obj.(*types.Func)
+					if !ok || fn.Pkg() != p.Types || fn.Exported() || fn.Name() == "init" {
+						return true
+					}
+					id.Name = id.Name + "Rn"
+					changed = true
+					return true
+				})
+				if changed {
+					var buf bytes.Buffer
+					if err := printer.Fprint(&buf, w.Fset, f); err == nil {
+						ov[w.Fset.Position(f.Pos()).Filename] = buf.String()
+					}
+				}
+			}
+		}
+		b, _ := json.Marshal(ov)
+		fmt.Println(string(b))
+		return
+	}
 	if spec == "mapranges" {
 		dumpMapRanges(w)
 		return
@@ -82,7 +123,6 @@ func dumpTerm(w *World, spec string) {
 	fmt.Println("--- hoisted")
 	fmt.Println(hoistAll(t).Pretty())
 }
-
 
 func dumpMapRanges(w *World) {
 	var paths []string
